@@ -213,6 +213,19 @@ def streams(rng, tier):
                 rule="containers of drop-counting elements decoded from valid / truncated / overlong / mutated input: created == dropped after the call")
     s7.shrinkable = False
     yield s7
+    # nesting as deep as the input is long: nothing on the decoding side may recurse per level (skip above all: it is what every
+    # typed decode calls for what it ignores)
+    deep = []
+    for d in ((100000, 1000000) if q else (100000, 1000000, 4000000)):
+        for unit, close in (("c0", ""), ("d81e", ""), ("81", ""), ("9f", "ff"), ("a100", ""), ("bf00", "ff"), ("c081", ""), ("c19fc2", "ff"), ("82c0", "00")):
+            deep.append(f"dec skip {unit * d}00{close * d}")
+            deep.append(f"dec skip {unit * d}")                                   # cut before the bottom
+        deep.append(f"dec datatype {'c0' * d}00")
+        deep.append(f"dec tag {'c0' * d}00")
+    s8 = Stream("nesting-as-deep-as-the-input", "hcore", deep, judge=judge_acc,
+                rule="dec skip on chains of 10^5 / 10^6 (thorough 4*10^6) tags, definite / indefinite arrays and maps, mixed; whole and cut before the bottom: an answer (no stack overflow), the model's")
+    s8.shrinkable = False
+    yield s8
 
 
 def replay_streams(rp):
